@@ -841,4 +841,258 @@ theorem nf_step {h : Hist} {t : Tracker} (inv : Inv h t) (b : Nat × Nat) :
           intro hp; have := hp.2.1; omega
         rw [(hB u hp).1]; exact inv.low u hu'
 
+/-- the tracker after `mark_skip()` on slot `ms` (ghost `top` raised) -/
+def skipT1 (t : Tracker) (ms : Nat) : Tracker := { put t ms { get t ms with skip := true } with top := max t.top ms }
+
+theorem markSkipped_unfold (t : Tracker) (ms : Nat) :
+    markSkipped t ms = if ms < t.root then some (t, [], []) else
+      if (get t ms).skip = true then some (touch t ms, [], []) else
+        let c := collect ms (ms + 1 - max (windowFirst ms) t.root) (skipT1 t ms) (ms + 1) []
+        fwd (c.1.top + 1 - ms + 1) c.1 (ms + 1) c.2 := rfl
+
+/-- The premise on pruning, as seen by one step: the current root is a window start or is not skip-marked. -/
+def RootOK (h : Hist) : Prop := isWindowStart h.root = true ∨ h.root ∉ h.sk
+
+/-- the potential parents collected by `mark_skipped` are exactly the parents connected to the marked slot -/
+theorem potential_exact {h : Hist} {t : Tracker} (inv : Inv h t) {ms : Nat} (hge : h.root ≤ ms)
+    (hns : ¬ (get t ms).skip = true) (hok : RootOK (h.addSk ms)) (p : Nat × Nat) :
+    p ∈ collectL (get (skipT1 t ms)) ms (ms + 1 - max (windowFirst ms) h.root) (ms + 1) [] ↔ Connected h ms p := by
+  have g1s : get (skipT1 t ms) ms = { get t ms with skip := true } := get_put_same _ _ _
+  have g1o : ∀ x, x ≠ ms → get (skipT1 t ms) x = get t x := fun x hx => get_put_other _ _ hx
+  have hrd1 : ∀ u, (get (skipT1 t ms) u).ready = (get t u).ready := by
+    intro u; by_cases e : u = ms
+    · subst e; rw [g1s]
+    · rw [g1o u e]
+  have hwf := windowFirst_le ms
+  have hsk1 : ∀ v, h.root ≤ v → v ≤ ms → ((get (skipT1 t ms) v).skip = true ↔ v = ms ∨ v ∈ h.sk) := by
+    intro v hv _
+    by_cases e : v = ms
+    · subst e; rw [g1s]; simp
+    · rw [g1o v e, inv.skip v hv]; simp [e]
+  have hmsn : ms ∉ h.sk := fun hm => hns ((inv.skip ms hge).mpr hm)
+  rw [mem_collectL (by omega)]
+  simp only [List.not_mem_nil, false_or]
+  constructor
+  · rintro ⟨u, hu1, hu2, hch, hcase⟩
+    have hul : h.root ≤ u := by omega
+    have hchain : ∀ v, u < v → v < ms → v ∈ h.sk := by
+      intro v a c
+      rcases (hsk1 v (by omega) (by omega)).mp (hch v a (by omega)) with e | hh
+      · omega
+      · exact hh
+    rcases hcase with ⟨hne, hp1, hp2⟩ | ⟨hs, hp⟩
+    · rw [g1o u hne, inv.nfs u p.2 hul] at hp2
+      refine ⟨by omega, ?_, fun v a c => hchain v (by omega) c⟩
+      rw [← hp1] at hp2; exact hp2
+    · rw [hrd1, inv.ready u p hul] at hp
+      obtain ⟨_, c1, c2, c3⟩ := hp
+      by_cases e : u = ms
+      · subst e; exact ⟨c1, c2, c3⟩
+      · refine ⟨by omega, c2, fun v a c => ?_⟩
+        by_cases hv : v < u
+        · exact c3 v a hv
+        · by_cases ev : v = u
+          · subst ev
+            rcases (hsk1 v hul (by omega)).mp hs with e' | hh
+            · exact absurd e' e
+            · exact hh
+          · exact hchain v (by omega) c
+  · rintro ⟨c1, c2, c3⟩
+    have hchain : ∀ u, p.1 < u → h.root ≤ u → ∀ v, u < v → v < ms + 1 → (get (skipT1 t ms) v).skip = true := by
+      intro u hu hur v a c
+      by_cases e : v = ms
+      · exact (hsk1 v (by omega) (by omega)).mpr (Or.inl e)
+      · exact (hsk1 v (by omega) (by omega)).mpr (Or.inr (c3 v (by omega) (by omega)))
+    by_cases hlo : max (windowFirst ms) h.root ≤ p.1
+    · refine ⟨p.1, by omega, by omega, ?_, Or.inl ⟨by omega, rfl, ?_⟩⟩
+      · intro v a c
+        by_cases e : v = ms
+        · exact (hsk1 v (by omega) (by omega)).mpr (Or.inl e)
+        · exact (hsk1 v (by omega) (by omega)).mpr (Or.inr (c3 v a (by omega)))
+      · rw [g1o p.1 (by omega), inv.nfs p.1 p.2 (by omega)]; exact c2
+    · by_cases hrw : h.root ≤ windowFirst ms
+      · -- the walk reaches the first slot of the window, whose ready list holds `p`
+        refine ⟨windowFirst ms, by omega, by omega, hchain (windowFirst ms) (by omega) hrw, Or.inr ⟨?_, ?_⟩⟩
+        · by_cases e : windowFirst ms = ms
+          · exact (hsk1 _ hrw hwf).mpr (Or.inl e)
+          · exact (hsk1 _ hrw hwf).mpr (Or.inr (c3 _ (by omega) (by omega)))
+        · rw [hrd1, inv.ready _ p hrw]
+          exact ⟨isWindowStart_windowFirst ms, by omega, c2, fun v a c => c3 v a (by omega)⟩
+      · -- the walk would be cut at the root: impossible, the root is not skip-marked
+        exfalso
+        have hnws : isWindowStart h.root = false := not_ws_of_between (by omega) hge
+        rcases hok with hw | hr
+        · rw [show (h.addSk ms).root = h.root from rfl, hnws] at hw; cases hw
+        · apply hr
+          show h.root ∈ ms :: h.sk
+          by_cases e : h.root = ms
+          · rw [e]; exact List.mem_cons_self
+          · exact List.mem_cons_of_mem _ (c3 h.root (by omega) (by omega))
+
+/-- **`mark_skipped` preserves the invariant**, never panics, announces exactly the newly ready pairs — provided the
+    root is a window start or not skip-marked (also not by this very mark). -/
+theorem skip_step {h : Hist} {t : Tracker} (inv : Inv h t) (ms : Nat) (hok : RootOK (h.skMark ms)) :
+    ∃ t' ann w, markSkipped t ms = some (t', ann, w) ∧ Inv (h.skMark ms) t' ∧ Step t t' ann w ∧
+      (∀ s p, p ∈ (get t' s).ready → p ∉ (get t s).ready → (s, p) ∈ ann) := by
+  rw [markSkipped_unfold]
+  unfold Hist.skMark at hok ⊢
+  by_cases hlt : ms < h.root
+  · rw [if_pos (by rw [inv.root]; exact hlt), if_pos hlt]
+    exact ⟨t, [], [], rfl, inv, Step.of_same rfl (fun _ => rfl) inv.waiter, fun s p h1 h2 => absurd h1 h2⟩
+  · rw [if_neg (by rw [inv.root]; exact hlt), if_neg hlt]
+    rw [if_neg hlt] at hok
+    by_cases hc : (get t ms).skip = true
+    · rw [if_pos hc]
+      have hb : ms ∈ h.sk := (inv.skip ms (by omega)).mp hc
+      refine ⟨_, _, _, rfl, ?_, Step.of_same rfl (get_touch t ms) inv.waiter, ?_⟩
+      · refine inv.of_same rfl (Nat.le_refl _) (get_touch t ms) rfl (fun _ => Iff.rfl) ?_
+        intro x
+        simp only [Hist.addSk, List.mem_cons]
+        exact ⟨fun hh => hh.elim (fun e => e ▸ hb) id, Or.inr⟩
+      · intro s p h1 h2; rw [get_touch] at h1; exact absurd h1 h2
+    · rw [if_neg hc]
+      simp only
+      have hge : h.root ≤ ms := by omega
+      have hmsn : ms ∉ h.sk := fun hm => hc ((inv.skip ms hge).mpr hm)
+      have g1s : get (skipT1 t ms) ms = { get t ms with skip := true } := get_put_same _ _ _
+      have g1o : ∀ x, x ≠ ms → get (skipT1 t ms) x = get t x := fun x hx => get_put_other _ _ hx
+      have hrd1 : ∀ u, (get (skipT1 t ms) u).ready = (get t u).ready := by
+        intro u; by_cases e : u = ms
+        · subst e; rw [g1s]
+        · rw [g1o u e]
+      have hwt1 : ∀ u, (get (skipT1 t ms) u).waiter = (get t u).waiter := by
+        intro u; by_cases e : u = ms
+        · subst e; rw [g1s]
+        · rw [g1o u e]
+      have hnf1 : ∀ u, (get (skipT1 t ms) u).nfs = (get t u).nfs := by
+        intro u; by_cases e : u = ms
+        · subst e; rw [g1s]
+        · rw [g1o u e]
+      obtain ⟨cr, ctp, cg, cl⟩ := collect_eq ms (ms + 1 - max (windowFirst ms) t.root) (skipT1 t ms) (ms + 1) []
+      generalize collect ms (ms + 1 - max (windowFirst ms) t.root) (skipT1 t ms) (ms + 1) [] = c at cr ctp cg cl ⊢
+      obtain ⟨t2, pot⟩ := c
+      simp only at cr ctp cg cl ⊢
+      have r2 : t2.root = t.root := cr
+      have tp2 : t2.top = max t.top ms := ctp
+      rw [inv.root] at cl
+      have hpot : ∀ p, p ∈ pot ↔ Connected h ms p := by
+        intro p; rw [cl]; exact potential_exact inv hge hc hok p
+      have hwf := windowFirst_le ms
+      have hpnd : pot.Nodup := by
+        rw [cl]
+        refine nodup_collectL (by omega) List.nodup_nil (fun _ hp => by cases hp)
+          (fun u => by rw [hnf1]; exact inv.nfsNodup u) (fun u => by rw [hrd1]; exact inv.readyNodup u) ?_ ?_
+        · intro u p _ hp
+          rw [hrd1] at hp
+          by_cases hu : h.root ≤ u
+          · exact ((inv.ready u p hu).mp hp).2.1
+          · rw [inv.low u (by omega)] at hp; cases hp
+        · intro u hu1 hu2
+          rw [hrd1]
+          have hnws : isWindowStart u = false := @not_ws_of_between ms u (by omega) (by omega)
+          apply List.eq_nil_iff_forall_not_mem.mpr
+          intro p hp
+          have := ((inv.ready u p (by omega)).mp hp).1
+          rw [hnws] at this; cases this
+      have hdis : ∀ x, ms + 1 ≤ x → ∀ id ∈ pot, id ∉ (get t2 x).ready := by
+        intro x hx id hid hm
+        rw [cg, hrd1] at hm
+        have c1 := (hpot id).mp hid
+        have c2 := ((inv.ready x id (by omega)).mp hm).2
+        exact hmsn (c2.2.2 ms c1.1 (by omega))
+      have hsk2 : ∀ u, ms + 1 ≤ u → (get t2 u).skip = (get t u).skip := by
+        intro u hu; rw [cg, g1o u (by omega)]
+      obtain ⟨t', new, w, e, r, tp, ga, gb, hn, hnd, hw⟩ :=
+        @fwd_exact (t2.top + 1 - ms + 1) t2 (ms + 1) pot (by omega) (by omega)
+          (fun u hu hs => by
+            rw [hsk2 u hu] at hs; rw [tp2]
+            have := inv.top u ((inv.skip u (by omega)).mp hs)
+            omega)
+          hpnd hdis
+      have hvis : ∀ x, Vis t2 (ms + 1) x ↔ ms < x ∧ ∀ u, ms < u → u < x → u ∈ h.sk := by
+        intro x
+        rw [vis_congr hsk2, vis_iff_hist inv (by omega)]
+        exact ⟨fun ⟨a, c⟩ => ⟨a, fun u x y => c u x y⟩, fun ⟨a, c⟩ => ⟨a, fun u x y => c u x y⟩⟩
+      have hA : ∀ x, (isWindowStart x = true ∧ Vis t2 (ms + 1) x) →
+          (get t' x).ready = (get t x).ready ++ pot ∧
+          ((get t' x).waiter = true ↔ (get t x).waiter = true ∧ (pot = [] ∨ (get t x).ready ≠ [])) := by
+        intro x hp
+        rw [ga x hp.1 hp.2, addSt_ready, addSt_waiter, cg, hrd1, hwt1]
+        exact ⟨rfl, Iff.rfl⟩
+      have hB : ∀ x, ¬ (isWindowStart x = true ∧ Vis t2 (ms + 1) x) →
+          (get t' x).ready = (get t x).ready ∧ (get t' x).waiter = (get t x).waiter := by
+        intro x hp
+        rw [gb x hp, cg, hrd1, hwt1]
+        exact ⟨rfl, rfl⟩
+      have hst := @step_of_append t t' pot (fun x => isWindowStart x = true ∧ Vis t2 (ms + 1) x) new w
+        (by rw [r, r2]) hA hB (fun x p => by rw [hn]; exact ⟨fun ⟨a, c, d⟩ => ⟨⟨a, c⟩, d⟩, fun ⟨⟨a, c⟩, d⟩ => ⟨a, c, d⟩⟩) hnd
+        (fun x p => by
+          rw [hw, cg, hrd1, hwt1]
+          exact ⟨fun ⟨a, c, d⟩ => ⟨⟨a, c⟩, d⟩, fun ⟨⟨a, c⟩, d⟩ => ⟨a, c, d⟩⟩)
+        (fun x hp id hid => by
+          have := hdis x hp.2.1 id hid
+          rw [cg, hrd1] at this; exact this)
+        (fun x hp => by rw [inv.root]; have := hp.2.1; omega) inv.waiter
+      have hskip' : ∀ u, (get t' u).skip = (get (skipT1 t ms) u).skip := by
+        intro u
+        by_cases hp : isWindowStart u = true ∧ Vis t2 (ms + 1) u
+        · rw [ga u hp.1 hp.2, addSt_skip, cg]
+        · rw [gb u hp, cg]
+      have hnfs' : ∀ u, (get t' u).nfs = (get t u).nfs := by
+        intro u
+        by_cases hp : isWindowStart u = true ∧ Vis t2 (ms + 1) u
+        · rw [ga u hp.1 hp.2, addSt_nfs, cg, hnf1]
+        · rw [gb u hp, cg, hnf1]
+      refine ⟨t', new, w, e, ?_, hst.1, hst.2⟩
+      refine ⟨by rw [r, r2]; exact inv.root, ?_, ?_, ?_, ?_, ?_, ?_, ?_, ?_⟩
+      · intro u hu
+        have hu' : h.root ≤ u := hu
+        rw [hskip']
+        show _ ↔ u ∈ ms :: h.sk
+        rw [List.mem_cons]
+        by_cases e : u = ms
+        · subst e; rw [g1s]; simp
+        · rw [g1o u e, inv.skip u hu']; simp [e]
+      · intro u x hu; rw [hnfs']; exact inv.nfs u x hu
+      · intro s p hs
+        rw [connected_addSk]
+        have hs' : h.root ≤ s := hs
+        by_cases hp : isWindowStart s = true ∧ Vis t2 (ms + 1) s
+        · rw [(hA s hp).1, List.mem_append, inv.ready s p hs', hpot]
+          constructor
+          · rintro (⟨a, c⟩ | c)
+            · exact ⟨a, Or.inl c⟩
+            · exact ⟨hp.1, Or.inr ⟨c.1, ((hvis s).mp hp.2).1, c, ((hvis s).mp hp.2).2⟩⟩
+          · rintro ⟨a, (c | ⟨_, _, c, _⟩)⟩
+            · exact Or.inl ⟨a, c⟩
+            · exact Or.inr c
+        · rw [(hB s hp).1, inv.ready s p hs']
+          constructor
+          · rintro ⟨a, c⟩; exact ⟨a, Or.inl c⟩
+          · rintro ⟨a, (c | ⟨_, c, _, d⟩)⟩
+            · exact ⟨a, c⟩
+            · exact absurd ⟨a, (hvis s).mpr ⟨c, d⟩⟩ hp
+      · intro u hu
+        rw [tp, tp2]
+        rcases List.mem_cons.mp hu with e | hh
+        · omega
+        · have := inv.top u hh; omega
+      · intro u; rw [hnfs']; exact inv.nfsNodup u
+      · intro s
+        by_cases hp : isWindowStart s = true ∧ Vis t2 (ms + 1) s
+        · rw [(hA s hp).1, List.nodup_append]
+          refine ⟨inv.readyNodup s, hpnd, ?_⟩
+          intro x hx y hy e
+          subst e
+          have := hdis s hp.2.1 x hy
+          rw [cg, hrd1] at this
+          exact this hx
+        · rw [(hB s hp).1]; exact inv.readyNodup s
+      · intro s hs; exact ((hst.1.waiter s).mp hs).2
+      · intro u hu
+        have hu' : u < h.root := hu
+        have hp : ¬ (isWindowStart u = true ∧ Vis t2 (ms + 1) u) := by
+          intro hp; have := hp.2.1; omega
+        rw [(hB u hp).1]; exact inv.low u hu'
+
 end AgModel.ParentReady
